@@ -56,7 +56,7 @@ TRUSTED = [
     "not enumerated (C05 enumerates them for a single mailbox)",
 ]
 ASSUMPTIONS = [
-    "max_messages is raised above the lag of the graph whenever a data type has two readers one of which feeds the other "
+    "max_messages is raised above the lag of the graph whenever a data type has two readers whose results meet again downstream "
     "(reconvergent path: exhaust / overlap-window plugins and the alignment of differently chunked streams make the upstream "
     "reader run ahead; capacity deadlocks are C06 / D10); otherwise max_messages is sampled from 2..6",
     "process pools (parallel='process', allow_multiprocess) are outside the model and not generated",
@@ -346,7 +346,13 @@ def _guard(f):
     except BaseException as e:  # noqa: BLE001
         if isinstance(e, (KeyboardInterrupt, SystemExit)):
             raise
-        return None, (sl.err_name(e), f"{type(e).__name__}: {e}"[:400])
+        # the exceptions this one replaced while being handled (a failing saver close can mask the root cause)
+        msg, seen, x = f"{type(e).__name__}: {e}"[:400], set(), e
+        while (x.__cause__ or x.__context__) is not None and id(x) not in seen and len(seen) < 6:
+            seen.add(id(x))
+            x = x.__cause__ or x.__context__
+            msg += f" <- {type(x).__name__}: {x}"[:200]
+        return None, (sl.err_name(e), msg)
 
 
 def _chunk_tuple(t, c):
@@ -508,7 +514,8 @@ def judge(case, res):
 
 def _judge(case, res, cfg, stored, tgt, where):
     exp = res["expect"]
-    threaded = lambda c: c["proc"] == "threaded_mailbox"   # noqa: E731
+    # the mailboxes are lazy only without executors (max_workers None / 1) and with allow_lazy
+    threaded = lambda c: c["proc"] == "threaded_mailbox" and c["lazy"] and c["workers"] in (None, 1)   # noqa: E731
     line, exc = res["line"], (res["exc"] or "") + " | root cause under single_thread: " + str(res.get("root_exc"))
     if line.startswith("err"):
         if TEN_PASS in exc and two_kind_nodes(case, stored, tgt):
@@ -601,7 +608,7 @@ def brick_sources(rng):
 
 
 def reconvergent(nodes):
-    """some data type has two consumers of which one (transitively) feeds the other"""
+    """some data type has two consumers whose results meet again downstream (one feeds the other, or both feed a third)"""
     prov = {o: i for i, n in enumerate(nodes) for o in n["outs"]}
     anc = []                                   # per node: the set of node indices it depends on, transitively
     for i, n in enumerate(nodes):
@@ -615,7 +622,8 @@ def reconvergent(nodes):
     for i, n in enumerate(nodes):
         for d in n["deps"]:
             readers.setdefault(d, []).append(i)
-    return any(a in anc[b] or b in anc[a] for rs in readers.values() for a in rs for b in rs if a != b)
+    up = [a | {i} for i, a in enumerate(anc)]
+    return any(a in u and b in u for rs in readers.values() for a in rs for b in rs if a != b for u in up)
 
 
 def gen_case(rng, quick=True, force=None):
@@ -777,8 +785,8 @@ def gen_case(rng, quick=True, force=None):
         return cfg
     case = dict(srcs=srcs, nodes=nodes, kinds=kinds, span=[t0, t1], target=target, stored=stored,
                 cfg=config(False), prep_cfg=config(True), mode="array" if rng.random() < 0.2 else "iter")
-    # capacity above the lag of the graph (see ASSUMPTIONS): when a data type has two readers one of which feeds the
-    # other, the downstream reader must be able to wait while the upstream one reads ahead - by the whole run behind an
+    # capacity above the lag of the graph (see ASSUMPTIONS): when a data type has two readers whose results meet again
+    # downstream (one feeds the other, or both feed a third), one reader must be able to wait while the other reads ahead - by the whole run behind an
     # exhaust plugin, by (2w+1)/chunk-duration chunks behind an overlap window, by as many chunks as a coarser
     # dependency spans when two differently chunked streams are aligned.  Below that capacity the mailboxes deadlock
     # (D10, C06); the property quantifies over capacities above the lag only.
@@ -1001,6 +1009,10 @@ def run(ctx):
             stats["with-twin-prep"] += 1
         if results[i].get("saved"):
             stats["storage-read-back"] += 1
+        if results[i].get("retried_after"):
+            stats["retried-after-mailbox-timeout"] += 1
+        if "root_exc" in results[i]:
+            stats["threaded-error-rerun-single-thread"] += 1
     rule = ("random DAGs of 2-6 data types over 1-2 independently chunked sources x processor x max_workers x lazy x "
             "max_messages x rechunk x pre-stored subset; impl = real Context.get_iter/get_array (row ids of the target), "
             "model = driver `c01.whole`; non-trivial = the target has rows and (a source has > 1 chunk, or something is "
